@@ -270,6 +270,8 @@ class Ctx:
             rc = 2
         cov = dict(self.cov)
         cov["distinct_nontrivial"] = len(self._distinct) + cov.pop("_extra_distinct", 0)
+        if not cov["samples"]:
+            cov["samples"] = [{"note": "the harness emitted no per-case sample; aggregate counters of this run", "counters": cov.get("counters", {})}]
         cov["min_observations"] = [{"what": l, "observed": g, "required": n} for (l, g, n) in self.minobs]
         cov["known_findings_observed"] = {k: n for k, (m, n) in hit.items()}
         cov["inconclusive"] = self.inconclusive[:50]
